@@ -14,6 +14,26 @@ CHECKS = {
    text="Same as C01 for the SIS chain: NetEpi.tla with SIS=TRUE model-checked by TLC, its emitted state graph walked by the real Gillespie_SIS to an event-count horizon (all reinfection orders), exact kernel/clock/row comparison at every history.",
    note="Horizon-bounded (<=5 events quick, <=6 thorough); trusts TLC and the scripted source.",
    technique="TLA+ spec (NetEpi, SIS) model-checked with TLC; spec-to-code replay with exact kernel comparison"),
+ "C04": dict(level="model_checking", ref="DESIGN.md §5 C04",
+   text="Every simulator (13 entry points, both return modes) is run on scenario families (isolated nodes, 1-2 node graphs, zero rates, negative tmin, runs cut by tmax, initially recovered nodes, weights) and each returned trajectory is validated by TLC as a behaviour of the count-level model TraceCounts.tla: first row at tmin summing to N, one legal move per row (continuous) or one generation per row (discrete), ordered times before tmax, SIR monotonicity, extinction at the end of unbounded runs; thousands of traces per TLC start, rejected traces re-run in diagnostic mode to name row and clause.",
+   note="Trace validation: quantification over inputs comes from the seeded scenario generator, not from TLC; tmax<=tmin excluded as contradictory.",
+   technique="TLA+ count-level spec (TraceCounts) + batched TLC trace validation of arrays recorded from the real simulators"),
+ "C05": dict(level="model_checking", ref="DESIGN.md §5 C05",
+   text="InitRequest.tla defines what a run starts from for explicit sets / rho (Python round-half-even) / default / both; CheckInit.tla is model-checked exhaustively on every request with N<=4; every simulator is called with every way of passing the request (list, tuple, set, array, range, single node incl. node 0, positional, IC dict) and row 0, statuses at tmin, first history entries, EoNError on conflicting arguments and 'initially recovered never infected' are validated by TLC with TraceInit.tla.",
+   note="Trace validation over a generated request family; wrapper equivalence basic_discrete_SIR vs discrete_SIR is a same-seed comparison of two runs.",
+   technique="TLA+ request semantics (InitRequest/CheckInit) model-checked; batched TLC trace validation (TraceInit) of recorded calls"),
+ "C11": dict(level="model_checking", ref="DESIGN.md §5 C11",
+   text="EventSIR.tla specifies first-passage percolation (Ref) and the priority-queue algorithm of fast_nonMarkov_SIR (Impl, all tie orders); TLC checks Impl = Ref for every scenario (exhaustive 2-node delay/duration tables incl. 0 and Inf, seeded tie-heavy scenarios on 3-6 nodes, finite tmax, initial recovereds) and emits the reference outcome, against which the real fast_nonMarkov_SIR (both rule interfaces, both return modes), fast_SIR (weighted path via scripted expovariate) and the percolation builders are replayed.",
+   note="Exhaustive only on the 2-node family; larger scenarios are seeded samples. Infector checked as membership in the set of shortest-path predecessors.",
+   technique="TLA+ spec (EventSIR: reference vs implementation-shaped queue) model-checked with TLC; TLC-emitted reference outcomes replayed into the code"),
+ "C13": dict(level="model_checking", ref="DESIGN.md §5 C13",
+   text="EventSIS.tla runs the plain reference semantics and the code-shaped pruned/chained attempt queue in lock step; TLC checks equal histories for every scenario with pairwise distinct event times (per-infection duration and delay-list tables, reinfections, finite tmax) and emits the reference log, against which the real fast_nonMarkov_SIS (separate and joint interfaces, arrays and full data, transmissions) is replayed.",
+   note="Seeded scenarios on 2-5 nodes; tied scenarios are skipped as the property's quantifier demands distinct times; 'coincides in law with fast_SIS' is covered by C02's layers only.",
+   technique="TLA+ spec (EventSIS: reference vs implementation-shaped) model-checked with TLC; TLC-emitted reference logs replayed into the code"),
+ "C19": dict(level="model_checking", ref="DESIGN.md §5 C19",
+   text="ApiFrame.tla states the frame condition (Call: env' = env; the call returns; deterministic entry points are functions of env) and is model-checked on small constants; every public entry point (90, table built with inspect) is called twice with the same argument objects and the fingerprint trace <env0,result1,env1,result2,env2> is accepted or rejected by TLC with TraceApiFrame.tla; control traces with one corrupted clause each must be rejected in every batch.",
+   note="Trace validation of a frame condition: TLC explores nothing of its own; coverage is by scenario families, not exhaustive over argument values; entry points whose first call raises are noted, not judged.",
+   technique="TLA+ frame specification (ApiFrame) + batched TLC trace validation (TraceApiFrame) of recorded double calls"),
 }
 NOT_YET = "check not built yet in this round (planned in DESIGN.md §5); not claimed"
 NA = {"C07": "pure numerical agreement between floating-point solutions of different ODE systems: no discrete state, history or finite oracle a TLA+ specification could enumerate (DESIGN.md §7)"}
